@@ -361,6 +361,139 @@ def run(ctx):
     if n_w1 == 0:
         ctx.ok('C01.1-writer-complete', 'encoder', 'no partial write primitive in the encoder')
 
+    # the bytes handed back are those written by this call
+    ctx.rule('C01.1-own-buffer', 'every entry point that returns the encoding as Vec<u8> returns the contents of a buffer it created itself (BytesMut / Vec constructor in the same call): '
+             'a buffer that outlives the call (a thread-local or pooled scratch buffer) can carry bytes of an earlier, failed call into this result', floor=2)
+    CONV = {'to_vec', 'into', 'from', 'freeze', 'deref', 'deref_mut', 'as_ref', 'as_mut', 'to_owned', 'clone', 'borrow', 'borrow_mut', 'into_boxed_slice', 'into_vec', 'split', 'split_to', 'as_slice', 'to_bytes', 'index'}
+    CTOR = {'with_capacity', 'new', 'default', 'zeroed'}
+    for q in sorted(ctx.F.bodies):
+        if not q.startswith(ENC) or ctx.F.bodies[q]['kind'] not in ('Fn',) or ctx.F.bodies[q].get('vis') != 'pub':
+            continue
+        EB = P.B(q)
+        if 'Vec<u8>' not in EB.local_ty(0) or not EB.local_ty(0).startswith('core::result::Result<'):
+            continue
+        oks = [(bb, st) for bb, j, st in EB.stmts() if st['k'] == '=' and EB.is_ret_slot(st['pl']['l']) and st['rv']['k'] == 'agg' and st['rv'].get('var') == 'Ok' and bb in EB.live_blocks()]
+        delegated = [bb for bb, t in EB.calls() if t['dst']['l'] in EB.ret_sources() and not t['dst'].get('p') and any(n.startswith(ENC) for n in callee_names(t))]
+        if not oks and delegated:
+            ctx.ok('C01.1-own-buffer', q.rsplit('::', 1)[1], 'hands on the result of another entry point', ctx.where(EB, delegated[0]))
+            continue
+        live = EB.live_blocks()
+        if not oks:
+            handed = [(bb, t) for bb, t in EB.calls() if bb in live and t['dst']['l'] in EB.ret_sources() and not t['dst'].get('p')
+                      and not any(n.endswith('FromResidual::from_residual') for n in callee_names(t))]
+            if handed:
+                ctx.bad('C01.1-own-buffer', q.rsplit('::', 1)[1], 'the bytes %s returns are the result of %s, not the contents of a buffer created by this call: whatever an earlier call left in a buffer that outlives the call '
+                        'ends up in front of this encoding' % (q.rsplit('::', 1)[1], callee_of(handed[0][1])[0]), ctx.where(EB, handed[0][0]), key='PROV:%s:result-not-from-own-buffer' % q)
+                continue
+        if not ctx.anchor(bool(oks), q + ': Ok(bytes) return'):
+            continue
+        for bb, st in oks:
+            todo, seen, ctor, foreign = [l for o in st['rv'].get('ops') or [] for l in EB._op_locals(o)], set(), None, None
+            while todo and len(seen) < 48:
+                l = todo.pop()
+                if l in seen:
+                    continue
+                seen.add(l)
+                ds = [d for d in EB.defs().get(l, []) if d[1] in live]
+                if not ds and foreign is None:
+                    foreign = ('parameter or captured variable %s' % EB.local_name(l), None)
+                for d in ds:
+                    if d[0] == 's':
+                        rv = d[3]['rv']
+                        if rv['k'] in ('use', 'cast') and rv.get('op', {}).get('k') in ('cp', 'mv'):
+                            todo.append(rv['op']['pl']['l'])
+                        elif rv['k'] in ('ref', 'rawptr'):
+                            todo.append(rv['pl']['l'])
+                        elif foreign is None:
+                            foreign = ('a value of another kind', d[1])
+                        continue
+                    t = d[3] if len(d) > 3 else d[2]
+                    nm = callee_of(t)[0] or ''
+                    last = nm.rsplit('::', 1)[-1]
+                    if last in CTOR and ('BytesMut' in nm or 'Vec' in nm or 'bytes_mut' in nm):
+                        ctor = d[1]
+                    elif last in CONV and t['args']:
+                        todo.extend(EB._op_locals(t['args'][0]))
+                    elif any(n.endswith('Try::branch') for n in callee_names(t)) and t['args']:
+                        todo.extend(EB._op_locals(t['args'][0]))
+                    elif foreign is None:
+                        foreign = ('the result of %s' % nm, d[1])
+            inst = q.rsplit('::', 1)[1]
+            if ctor is not None and foreign is None:
+                ctx.ok('C01.1-own-buffer', inst, 'the bytes returned come from a buffer constructed in this call', ctx.where(EB, ctor))
+            else:
+                ctx.bad('C01.1-own-buffer', inst, 'the bytes %s returns are not (only) the contents of a buffer created by this call: they come from %s - whatever an earlier call left in a buffer that outlives the call '
+                        'ends up in front of this encoding' % (inst, foreign[0] if foreign else 'no buffer constructor'), ctx.where(EB, foreign[1] if foreign and foreign[1] is not None else bb),
+                        key='PROV:%s:result-not-from-own-buffer' % q)
+
+    # every element of a container is written by the encoder itself
+    ctx.rule('C01.2-elements-written', 'in every loop of the encoder over the elements of a container (list, tuple, map pairs, free variables, reference words) each element - each component of a pair - is handed '
+             'to an encoder function or to a buffer write on every way round the loop: an element written some other way (bytes of a neighbour that compares equal copied over) need not be the encoding of that element', floor=8)
+    n_loops = 0
+    for q in sorted(ctx.F.bodies):
+        if not q.startswith(ENC + 'encode') or ctx.F.bodies[q]['kind'] != 'Fn':
+            continue
+        LB = P.B(q)
+        live = LB.live_blocks()
+        for nb, t in LB.calls():
+            if nb not in live or not any(n.endswith('Iterator::next') for n in callee_names(t)) or t['dst'].get('p') or not isinstance(t.get('t'), int):
+                continue
+            ity = LB.local_ty(t['dst']['l'])
+            if 'OwnedTerm' not in ity and '&u32' not in ity:
+                continue
+            sd = LB.switch_on_discr(t['t'])
+            if not sd:
+                continue
+            some = [b_ for v_, b_ in sd[2] if v_ == 1]
+            if not some:
+                continue
+            inner = ity[len('core::option::Option<'):-1]
+            arity = 1
+            if inner.startswith('(') and 'usize' not in inner:
+                arity = inner.count('&erltf::term::OwnedTerm')
+            n_loops += 1
+            item = t['dst']['l']
+
+            def aliases(seed):
+                # the item itself under other names: copies, moves, reborrows, projections - nothing computed from it
+                out = set(seed)
+                for _ in range(6):
+                    n0 = len(out)
+                    for bb_, j_, st_ in LB.stmts():
+                        if st_['k'] != '=' or st_['pl'].get('p'):
+                            continue
+                        rv_ = st_['rv']
+                        if rv_['k'] == 'use' and rv_['op'].get('k') in ('cp', 'mv') and rv_['op']['pl']['l'] in out:
+                            out.add(st_['pl']['l'])
+                        elif rv_['k'] in ('ref', 'rawptr') and rv_['pl']['l'] in out:
+                            out.add(st_['pl']['l'])
+                    if len(out) == n0:
+                        break
+                return out
+            comps = []
+            if arity > 1:
+                for i in range(arity):
+                    ls = [st['pl']['l'] for bb, j, st in LB.stmts() if st['k'] == '=' and not st['pl'].get('p') and st['rv']['k'] == 'use' and st['rv']['op'].get('k') in ('cp', 'mv')
+                          and st['rv']['op']['pl']['l'] == item and [e.get('f') for e in (st['rv']['op']['pl'].get('p') or []) if isinstance(e, dict) and 'f' in e][-1:] == [i]]
+                    comps.append(('component %d' % i, aliases(ls) if ls else set()))
+            else:
+                comps.append(('item', aliases([item])))
+            for cname, d in comps:
+                sinks = set()
+                for cb, ct in LB.calls():
+                    nm = callee_of(ct)[0] or ''
+                    if not (nm.startswith(ENC) or 'BufMut::put' in nm or '::put_' in nm or nm.endswith('::extend_from_slice')):
+                        continue
+                    if any(l in d for a, ty_ in zip(ct['args'], (ct.get('aty') or []) + [''] * len(ct['args'])) if 'BytesMut' not in ty_ and 'HashSet' not in ty_ for l in LB._op_locals(a)):
+                        sinks.add(cb)
+                inst = '%s:loop@bb%d:%s' % (q.rsplit('::', 1)[1], nb, cname) if False else '%s:%s:%s' % (q.rsplit('::', 1)[1], describe(LB, canon(LB, t['args'][0])) if False else 'loop%d' % n_loops, cname)
+                if sinks and LB.all_paths_pass(some[0], sinks, to_blocks=[nb]):
+                    ctx.ok('C01.2-elements-written', inst, 'every way round the loop passes the element to the encoder (%d call sites)' % len(sinks), ctx.where(LB, nb))
+                else:
+                    ctx.bad('C01.2-elements-written', inst, 'in %s there is a way round the element loop on which the %s is not handed to an encoder function or a buffer write: what goes on the wire for that element is not its own encoding'
+                            % (q.rsplit('::', 1)[1], cname), ctx.where(LB, some[0]), key='DOM:%s:element-not-encoded' % q)
+    ctx.anchor(n_loops >= 8, 'element loops in the encoder (12 counted)')
+
     # the text of an atom: UTF-8 tags are read as UTF-8
     ctx.rule('C01.2-utf8-atoms-as-utf8', 'the parsers of ATOM_UTF8_EXT (118) and SMALL_ATOM_UTF8_EXT (119), which is what the encoder writes for every atom, turn the bytes into text with a UTF-8 conversion on every successful path '
              '(a byte-per-character reading, right for the Latin-1 tags, gives another atom for every non-ASCII name)', floor=2)
